@@ -6,7 +6,7 @@ with the extracted model (Model/Ctx.decide).  Theory atoms: context x sign table
 import json, re
 
 PROP_FILE = 'Props/C11.v'
-GROUPS = ['transformers']
+GROUPS = ['transformers', 'loc']
 LEAF_LEMMAS = ['flags_spec', 'shift_of_spec', 'tel_ctx_spec', 'literal_flags_spec', 'lookahead_part_spec', 'initially_spec']
 ASSUMPTIONS = ['clingo parses the statement templates as the AST node types named in the table (checked: every template is accepted for the plain atom form)',
                'the traversal model (which flags a position sees) is hand-written and tied by this exhaustive table only']
@@ -170,7 +170,7 @@ def located(ctx, items):
         if not m:
             out.append('diagnostic carries no source location: %s' % msg)
         elif m.group(1) not in names:
-            out.append('the location %s of the diagnostic %r is not the location of any construct of the text (locations of the syntax tree, rendered by Model/Loc.str_location: %s)' % (m.group(1), msg, sorted(names)[:12]))
+            out.append('the location %s of the diagnostic %r is not the location of any construct of the text (locations of the syntax tree, rendered in the documented shape, Model/Loc.loc_shape: %s)' % (m.group(1), msg, sorted(names)[:12]))
         else:
             out.append(None)
     return out
@@ -241,7 +241,7 @@ def run(ctx):
     lm = ctx.model().run(['loc %d %d %d %d %d %d' % (b + e) for b, e in lcases], timeout=30)
     for (b, e), x, y in zip(lcases, la.get('out') or [None] * len(lcases), lm):
         if x != y:
-            cex.append({'key': 'c11:strloc:%s:%s' % (b, e), 'what': 'str_location renders begin %s end %s (file, line, column) as %r, Model/Loc.str_location as %r' % (b, e, x, y), 'input': {'strloc': [list(b), list(e)]}})
+            cex.append({'key': 'c11:strloc:%s:%s' % (b, e), 'what': 'str_location renders begin %s end %s (file, line, column) as %r, the documented shape (Model/Loc.loc_shape) is %r' % (b, e, x, y), 'input': {'strloc': [list(b), list(e)]}})
             break
     ltexts = [(r['text'], a.get('msg', '')) for r, a in zip(rows, impl) if classify(a).startswith('reject')][::7 if ctx.quick else 1]
     mres = ctx.impl().run([{'cmd': 'transform', 'texts': [t]} for t in MULTILINE], timeout=20)
